@@ -462,7 +462,7 @@ func Run(pkg string, codecs []Codec) error {
 				Force, around = i-count-1, 0 // -1, 0, +1 around every small maximum length
 			}
 			if big && i%50 == 0 {
-				around = 300
+				around = 60
 			}
 			Fill(rng, reflect.ValueOf(obj).Elem(), around, 0)
 			var gb []byte
